@@ -739,7 +739,9 @@ class Fingerprint(str):
 class SorteDeque(collections.deque):
     """A deque subclass that tries to maintain sorted ordering using bisect"""
     def insort(self, item):
-        i = bisect.bisect_left(self, item)
+        # insert after any equal items: entries that compare equal (e.g. signatures made in the same second) keep their
+        # order of arrival, so that a copy or a re-import lists them in the same order as the original
+        i = bisect.bisect_right(self, item)
         self.rotate(- i)
         self.appendleft(item)
         self.rotate(i)
